@@ -93,14 +93,17 @@ Fixpoint c_strcmp (a b : list Z) : Z :=
   | x :: a', y :: b' => if x =? y then (if x =? 0 then 0 else c_strcmp a' b') else x - y
   end.
 
-Inductive dcall := DOpendir (path : list Z) (ok : bool) | DReaddir (r : option (list Z)) | DClosedir.
+Inductive dcall :=
+  | DOpendir (path : list Z) (ok : bool) | DReaddir (r : option (list Z))
+  | DCallback (path name : list Z) (data : Z) | DClosedir.
 Record dstate := mkD {
   d_open : nat;                                  (* directory streams (descriptors) open *)
-  d_calls : list dcall;                          (* library calls, in order *)
+  d_calls : list dcall;                          (* library calls and callback invocations, in order *)
   d_log : list (list Z * list Z * Z)             (* callback invocations f(path, name, data), in order *)
 }.
 Definition d_call (st : dstate) (c : dcall) : dstate := mkD (d_open st) (d_calls st ++ [c]) (d_log st).
-Definition d_visit (st : dstate) (v : list Z * list Z * Z) : dstate := mkD (d_open st) (d_calls st) (d_log st ++ [v]).
+Definition d_visit (st : dstate) (v : list Z * list Z * Z) : dstate :=
+  mkD (d_open st) (d_calls st ++ [DCallback (fst (fst v)) (snd (fst v)) (snd v)]) (d_log st ++ [v]).
 Definition d_set_open (st : dstate) (n : nat) : dstate := mkD n (d_calls st) (d_log st).
 
 (* `for (entry = NULL; (entry = readdir(dir));) if (!!strcmp(d_name, ".") && !!strcmp(d_name, "..")) f(path, d_name, data);` *)
@@ -137,14 +140,17 @@ Definition opendir_l (order : list name -> list name) (B : nat) (fs : lfs) (cwd 
 
 (* ---------------------------------------------------------------- descriptor accounting *)
 (* system/library calls made by these functions and their effect on the number of open descriptors *)
-Inductive sys := SysStat | SysLstat | SysMkdir | SysOpendir (ok : bool) | SysReaddir | SysClosedir.
+Inductive sys := SysStat | SysLstat | SysMkdir | SysOpendir (ok : bool) | SysReaddir | SysClosedir | SysCallback.
 Definition fd_delta (c : sys) : Z :=
   match c with SysOpendir true => 1 | SysClosedir => -1 | _ => 0 end.
 Fixpoint fd_balance (l : list sys) : Z :=
   match l with [] => 0 | c :: r => fd_delta c + fd_balance r end.
 Definition sys_of_fsev (e : fsev) : sys := match e with EvStat _ _ => SysStat | EvMkdir _ _ => SysMkdir end.
 Definition sys_of_dcall (c : dcall) : sys :=
-  match c with DOpendir _ ok => SysOpendir ok | DReaddir _ => SysReaddir | DClosedir => SysClosedir end.
+  match c with
+  | DOpendir _ ok => SysOpendir ok | DReaddir _ => SysReaddir | DCallback _ _ _ => SysCallback
+  | DClosedir => SysClosedir
+  end.
 
 (* the queries make one call each: zix_file_type and zix_file_size stat(2), zix_symlink_type lstat(2) *)
 Definition file_type_calls : list sys := [SysStat].
